@@ -351,6 +351,12 @@ def run(ctx):
     ok = bool(cks) and all(must_pass(close, c, set(sync_calls), set(assigns)) for c in cks)
     ctx.ob("R8", "GrafeoDB::close#sync-before-closed", ok,
            what="GrafeoDB::close can mark the database closed after a checkpoint without syncing the log", where=close.loc())
+    # dropping the database closes it (commit marker, checkpoint, sync)
+    ddrop = P.method("GrafeoDB", "Drop", "drop")
+    ctx.ob("R8", "GrafeoDB#drop-closes", close.id in P.reach([ddrop]),
+           what="dropping a GrafeoDB does not reach GrafeoDB::close: what was written since the last sync is not made durable and the "
+                "records stay without a commit marker", where=ddrop.loc())
+    # close writes the commit marker before the checkpoint (C05-R8) and only then marks the database closed
     # R8b rotation
     rot = P.fn("WalManager::rotate")
     ok = any(_is(callee_name(t), SYNC_ALL) for bi, t in rot.calls())
